@@ -123,7 +123,9 @@ def resolveCalled (st : List Frame) : Expr → Expr
     else
       -- cannot be inlined: generic_visit (visit_Lambda for the callee: its parameters hide outer arguments)
       let (ps', fr) := hideRename st ps (allNames body)
-      .call (.lam ps' (resolveCalled (fr :: st) body)) (resolveCalledL st args) kwn (resolveCalledL st kwv)
+      -- keyword arguments follow the parameters that got new names
+      let kwn' := kwn.map (fun k => ((ps.zip ps').lookup k).getD k)
+      .call (.lam ps' (resolveCalled (fr :: st) body)) (resolveCalledL st args) kwn' (resolveCalledL st kwv)
   | .call f args kwn kwv => .call (resolveCalled st f) (resolveCalledL st args) kwn (resolveCalledL st kwv)
   | .lam ps b =>
     let (ps', fr) := hideRename st ps (allNames b)
